@@ -450,12 +450,16 @@ func checkC17(c *Ctx) {
 	// on their identifiers (a vendored path taken from go/types, a path with a version element, the same
 	// package under two spellings) and the nodes carry the minimal fields only
 	hbNames := map[string]string{"fmt": "fmt", "example.com/app/vendor/github.com/pkg/errors": "errors", "github.com/pkg/errors": "errors",
-		"example.com/m/v2": "m", "vendor/golang.org/x/net/idna": "idna", "golang.org/x/net/idna": "idna"}
+		"example.com/m/v2": "m", "vendor/golang.org/x/net/idna": "idna", "golang.org/x/net/idna": "idna",
+		// characters that mean something to fmt, to a shell or to a URL parser mean nothing in an import path
+		"example.com/caf%C3%A9/menu": "menu", "example.com/100%d/%w/v": "v", "example.com/a b/{c}": "c"}
 	for hi, paths := range [][]string{
 		{"fmt", "example.com/app/vendor/github.com/pkg/errors"},
 		{"example.com/app/vendor/github.com/pkg/errors", "fmt"},
 		{"vendor/golang.org/x/net/idna", "example.com/m/v2", "fmt"},
 		{"example.com/app/vendor/github.com/pkg/errors", "example.com/m/v2", "vendor/golang.org/x/net/idna"},
+		{"example.com/caf%C3%A9/menu", "fmt"},
+		{"example.com/100%d/%w/v", "example.com/a b/{c}", "example.com/caf%C3%A9/menu"},
 	} {
 		paths := paths
 		build := func() (*dst.File, map[string]string) {
